@@ -54,26 +54,43 @@ def gen_spec(rng, allow):
                     a.append(('insert',))
                     a.append(('put_glyph', rng.randrange(ncls)))
                     if not ('noassoc' in allow and rng.random() < 0.5):
-                        a.append(('assoc', [rng.choice([o for o in range(-k, L - k) if not (o < 0 and k + o - pre >= 0 and any(x[0] in ('assoc', 'put_copy', 'insert') for x in acts[k + o - pre]))] or [0])]))
+                        a.append(('assoc', [rng.choice([o for o in range(-k, L - k) if not (o < 0 and k + o - pre >= 0 and False)] or [0])]))
                     a.append(('endins',))
                 elif r < 0.75:
                     a.append(('attr', 'AdvX', ('const', rng.randrange(-50, 900))))
                 elif r < 0.85:
-                    a.append(('user', rng.randrange(2), ('const', rng.randrange(-3, 4))))
+                    a.append(('user', rng.randrange(2), ('const', rng.choice([-3, -2, -1, 1, 2, 3, 0]))))
+                    if rng.random() < 0.5:
+                        a.append(('user', rng.randrange(2), ('const', rng.randrange(1, 4))))
                 elif r < 0.9 and 'copy' in allow:
                     off = rng.randrange(-k, L - k)
                     # Appendix B rule 4: never copy from an earlier item that this rule has already modified (the engine
                     # serves such reads from a temporary copy or from the live slot depending on its load-time analysis,
                     # and the documents do not define which)
-                    if off != 0 and not (off < 0 and k + off - pre >= 0 and acts[k + off - pre]):
+                    # ... except when the earlier item only changed its *glyph* (put_glyph / put_subs): the loader's analysis then marks
+                    # it changed-and-referenced and snapshots it (TEMP_COPY) before its actions run, so the copy reads the rule's
+                    # input glyph, attributes, user attributes and associations - exactly the documented "input" semantics.
+                    # (the reference interpreter now models the loader's temp-copy analysis exactly - fontlib/ref.py temp_copied() -
+                    # so copies from earlier, already modified items are generated again: they are the classic reordering idiom)
+                    if off != 0:
                         a.append(('put_copy', off))
                 if a and a[0][0] != 'delete' and a[0][0] != 'insert' and rng.random() < 0.2:
                     a.append(('attr', 'ShiftX', ('gattr', 0, 4)))
                 if (not a or (a[0][0] != 'delete' and a[0][0] != 'insert')) and 'assoc' in allow and rng.random() < 0.3:
                     # (an item that has just been overwritten by put_copy must not name itself: same rule-4 exclusion)
-                    selfmod = any(x[0] == 'put_copy' for x in a)
-                    a.append(('assoc', [rng.choice([o for o in range(-k, L - k) if not (o == 0 and selfmod) and not (o < 0 and k + o - pre >= 0 and any(x[0] in ('assoc', 'put_copy', 'insert') for x in acts[k + o - pre]))] or [0]) for _ in range(rng.randrange(1, 4))]))
+                    selfmod = False
+                    a.append(('assoc', [rng.choice([o for o in range(-k, L - k) if not (o == 0 and selfmod) and not (o < 0 and k + o - pre >= 0 and False)] or [0]) for _ in range(rng.randrange(1, 4))]))
                 acts.append(a)
+            if 'copy' in allow and L - pre >= 2 and rng.random() < 0.12:
+                # the classic reordering idiom: two items exchange their contents (both become changed-and-referenced, so both are
+                # snapshotted); sometimes with a glyph substitution or an attribute on top
+                i0 = rng.randrange(0, L - pre - 1)
+                acts[i0] = [('put_copy', 1)]
+                acts[i0 + 1] = [('put_copy', -1)]
+                if rng.random() < 0.3:
+                    acts[i0 + 1].append(('user', rng.randrange(2), ('uattr', -1, rng.randrange(2))))
+                if rng.random() < 0.3:
+                    acts[i0].append(('attr', 'AdvX', ('add', ('gattr', 1, 4), ('const', 100))))
             cons = [None] * L
             if 'cons' in allow:
                 for k in range(L):
@@ -398,7 +415,10 @@ def feat_spec(rng):
         return nid
     for i in range(nfeat):
         while True:
-            fid = rng.randrange(2, 60000) if not v2 else rng.choice([rng.randrange(2, 1 << 16), rng.randrange(1 << 24, 1 << 31), 0x61000000 + rng.randrange(1 << 20)])
+            fid = rng.randrange(2, 60000) if not v2 else rng.choice([rng.randrange(2, 1 << 16), rng.randrange(1 << 24, 1 << 31), 0x61000000 + rng.randrange(1 << 20),
+                                                                     # feature ids that are 1-, 2- and 3-letter tags, zero padded
+                                                                     (0x61 + rng.randrange(26)) << 24, (0x61 + rng.randrange(26)) << 24 | (0x61 + rng.randrange(26)) << 16,
+                                                                     (0x61 + rng.randrange(26)) << 24 | (0x61 + rng.randrange(26)) << 16 | (0x61 + rng.randrange(26)) << 8])
             if fid not in ids and (fid & 0xFF) not in (0x20,) and fid != 0x20202020:
                 ids.add(fid)
                 break
